@@ -27,8 +27,11 @@ BP_INSTANCES = ["asqas03", "asqas08", "a42", "a04", "a08", "beng01",
                 "cl01_020_01", "cl02_020_03"]
 TSP_INSTANCES = ["burma14", "ulysses16", "gr17", "gr21", "cn11"]
 ATSP_INSTANCES = ["br17", "ftv33", "p43", "ry48p", "ftv35", "gr17", "burma14"]
+# from ten teams upwards the earliest-slot decoding of short runs leaves days
+# without a game (byes), which exercises that part of the error count
 TTP_INSTANCES = ["circ4", "circ6", "con4", "gal4", "nl4", "nl6", "sup4",
-                 "circ8"]
+                 "circ8", "circ10", "circ12", "nl10", "circ16", "con12",
+                 "nl8"]
 QAP_INSTANCES = ["chr12a", "had12", "nug12", "tai12a", "scr12"]
 INSTGEN_INSTANCES = [("beng01", 0.25), ("cl01_020_01", 0.125),
                      ("cl02_020_01", 0.25), ("beng02", 0.125)]
